@@ -100,6 +100,8 @@ func c19Field(r *core.Rand, typ string, sep string, stats map[string]int) string
 	}
 	stats["varchar_valid"]++
 	pool := []string{"", "plain", "with space", " lead", "  two leading", "trail ", "\tx", "comma,inside", "semi;colon", "quote\"inside", "line\nbreak", "tab\there", "é ü", "'single'", "NULL", "N", `\n`, "pipe|bar", strings.Repeat("x", 50),
+		// texts next to the NULL marker (only the two characters \N mean NULL; everything else is text and is stored as it stands)
+		`\\N`, `\\\N`, `x\N`, `\N `, `\NULL`, `\\n`, `\`, `\\`,
 		// bytes that are not valid UTF-8 (a Latin-1 file, a UTF-16 byte order mark, a cut-off sequence): the column stores bytes
 		"caf\xe9", "\xff\xfe", "ok\xc3", "\x80", "a\xf0\x9f\x98", "\ufffd", "\ufeffbom", "nul\x00byte"}
 	s := pool[r.Intn(len(pool))]
